@@ -282,12 +282,32 @@ func (m *c01Monitor) judgeFrozen(inst string, a *c01Attempt, snap world.Snapshot
 	}
 	if !maxExists {
 		a.split = true
+		// the procedure compares positions only after its quorum check passed: with fewer certainly frozen members
+		// than the failover quorum the attempt ends with "no quorum" and never gets to know about the split
+		// (nothing may be promoted all the same, which the promotion oracle and promoAfter still check)
+		if len(certain) < m.quorumOf(m.activeAt[inst]) {
+			a.posFail = true
+		}
 		var parts []string
 		for _, h := range frozen {
 			parts = append(parts, h+"="+snap[h].Positions().OneLine())
 		}
 		a.splitWhat = strings.Join(parts, " ; ")
 	}
+}
+
+// quorumOf is the failover quorum of a published list (statement of C12).
+func (m *c01Monitor) quorumOf(A []string) int {
+	n := len(A)
+	req := n / 2
+	if m.w < req {
+		req = m.w
+	}
+	quorum := n - req
+	if quorum < 1 || !m.semi {
+		quorum = 1
+	}
+	return quorum
 }
 
 func (m *c01Monitor) endAttempt(inst string) {
@@ -331,18 +351,7 @@ func (m *c01Monitor) beforeStmt(w *world.World, c *world.StmtCtx) {
 	// a promotion event
 	m.Promotions++
 	A := m.activeAt[inst]
-	n := len(A)
-	req := n / 2
-	if m.w < req {
-		req = m.w
-	}
-	quorum := n - req
-	if quorum < 1 {
-		quorum = 1
-	}
-	if !m.semi {
-		quorum = 1
-	}
+	quorum := m.quorumOf(A)
 	var F, notF []string
 	for _, h := range A {
 		srv := w.Servers[h]
@@ -521,9 +530,37 @@ func c01Run(u *Unit) {
 	}
 	r := rand.New(rand.NewSource(u.Seed ^ 0x5eed))
 	r.Shuffle(len(faults), func(i, j int) { faults[i], faults[j] = faults[j], faults[i] })
-	n := tierN(u.Job.Tier, 10, 120)
+	// stratified: the first half of the sample comes from the freeze phase (a member other than the old master is
+	// lost or refuses between the approval and the end of the freeze - the "second fault" of a failover), the rest
+	// is uniform over all boundaries
+	n := tierN(u.Job.Tier, 18, 120)
 	if n > len(faults) {
 		n = len(faults)
+	}
+	freeze := func(f c01Fault) bool {
+		if f.B.Kind != "sql" || f.B.Host == haNames[0] || f.B.Occ > 1 {
+			return false
+		}
+		switch f.B.Class {
+		case "set_ro", "set_ro_nosuper", "stop_io":
+		default:
+			return false
+		}
+		switch f.Kind {
+		case "fail", "hang", "server-dies-before":
+			return true
+		}
+		return false
+	}
+	k := 0
+	for i := range faults {
+		if k >= n/2 {
+			break
+		}
+		if freeze(faults[i]) {
+			faults[k], faults[i] = faults[i], faults[k]
+			k++
+		}
 	}
 	for i := 0; i < n; i++ {
 		f := faults[i]
@@ -544,5 +581,5 @@ func init() {
 			}
 			return f
 		},
-		Rule: "unit = cluster shape (2-4 HA, cascade, semi-sync on/off, wait count, force_switchover, per-replica GTID history from {equal, behind, far behind, received-but-unapplied tail, gap, errant}, multi-source base, priorities) x request kind; a fault-free baseline enumerates the external call boundaries after the request, then one run per sampled (boundary x fault kind); non-trivial = a promotion event or a split-brain abort was observed; distinct by (n, semi-sync, request, force, fault kind, boundary class, outcome)"})
+		Rule: "unit = cluster shape (2-4 HA, cascade, semi-sync on/off, wait count, force_switchover, per-replica GTID history from {equal, behind, far behind, received-but-unapplied tail, gap, errant}, multi-source base, priorities) x request kind; a fault-free baseline enumerates the external call boundaries after the request, then one run per sampled (boundary x fault kind), half of the sample stratified to the freeze phase (a member other than the old master dies, fails or hangs at its first read-only / stop-IO call); non-trivial = a promotion event or a split-brain abort was observed; distinct by (n, semi-sync, request, force, fault kind, boundary class, outcome)"})
 }
